@@ -15,7 +15,7 @@ TOKEN_REPS = {
     "ws": [" ", "\n", "\t ", "\r\n", "\x0c", " ", " "],
     "line_comment": ["// c\n", "//\n", "// é\r\n"],
     "block_comment": ["/* c */", "/**/", "/* é\n */", "/* /* n */ */"],
-    "id": ["a", "Foo", "_x1", "NAME", "x"],
+    "id": ["a", "Foo", "_x1", "NAME", "x", "4abc", "0xZ", "00x1", "1e5", "10x1F", "7_"],
     "int": ["0", "42", "0x1F", "18446744073709551615"],
     "bin": ["0b01"],
     "signed": ["-5", "+7"],
@@ -28,7 +28,7 @@ TOKEN_REPS = {
     "pp": ["#ifdef X\n", "#ifndef X\n", "#else\n", "#endif\n", "#define X\n", "#ifdef\n", "#define 1\n", "#ifdefé"],
     # error classes
     "e_char": ["@", "/", "\\", "é", "`", "\U0001F600", "\x00"],
-    "e_num": ["0x", "0b", "0b2", "18446744073709551616", "-9223372036854775809", "0xFFFFFFFFFFFFFFFFF"],
+    "e_num": ["0x", "0b", "0x ", "18446744073709551616", "-9223372036854775809", "0xFFFFFFFFFFFFFFFFF", "0b12", "0x1G"],
     "e_str": ['"abc', '"a\nb"', '"a\\'],
     "e_var": ["$", "$1"],
     "e_code": ["[{ c", "[{"],
